@@ -30,8 +30,8 @@ func c04Specs(tier string) []*Spec {
 	}()
 	if tier == "quick" {
 		add("default/3keys/d6", defaultCfg, k3, 6, 3, full, 40)
-		add("default/2keys-narrow/d9", defaultCfg, k2, 9, 4, narrow, 10)
-		add("flush150/2keys-narrow/d10", Cfg{Fast: true, Flush: 150}, k2, 10, 4, narrow, 25)
+		add("default/2keys-narrow/d8", defaultCfg, k2, 8, 4, narrow, 10)
+		add("flush150/2keys-narrow/d9", Cfg{Fast: true, Flush: 150}, k2, 9, 4, narrow, 25)
 		for i, c := range cfgs {
 			add("cfg"+itoa(i)+"/3keys/d5", c, k3, 5, 3, full, 1)
 		}
